@@ -387,6 +387,59 @@ func gsSignature(d gsDesc) string {
 	return strings.Join(parts, " ")
 }
 
+// minimise walks a failing description towards the default one: a dimension is reset when the
+// neighbour obtained that way is part of the batch and fails in the same way.  The signature is
+// computed from the fixpoint, so one root cause gives one signature whatever else varied.
+func minimise(d gsDesc, classOf map[gsDesc]string) gsDesc {
+	cl, ok := classOf[d]
+	if !ok || cl == "ok" || cl == "skip" {
+		return d
+	}
+	resets := []func(gsDesc) gsDesc{
+		func(x gsDesc) gsDesc { x.Keep = false; return x },
+		func(x gsDesc) gsDesc { x.MainFirst = "call"; return x },
+		func(x gsDesc) gsDesc { x.MainPos = "last"; return x },
+		func(x gsDesc) gsDesc { x.Lit, x.Callee = "-", "typed"; return x },
+		func(x gsDesc) gsDesc { x.Callee = "typed"; return x },
+		func(x gsDesc) gsDesc { x.Sel = "-"; return x },
+		func(x gsDesc) gsDesc { x.Arg = "str"; return x },
+		func(x gsDesc) gsDesc {
+			if strings.HasPrefix(x.Fn, "S") || x.Fn == "Errorf" {
+				x.Pos = "assign"
+			} else {
+				x.Pos = "stmt"
+			}
+			return x
+		},
+		func(x gsDesc) gsDesc {
+			if x.W == "Stderr" {
+				x.W = "Stdout"
+			}
+			return x
+		},
+		func(x gsDesc) gsDesc {
+			if strings.HasPrefix(x.Fn, "S") || x.Fn == "Errorf" {
+				if x.Pos == "assign" {
+					x.Pos = "stmt"
+				}
+			}
+			x.Fn, x.W = "Println", "-"
+			return x
+		},
+		func(x gsDesc) gsDesc { x.Sh, x.Shk = "-", "-"; return x },
+	}
+	for changed := true; changed; {
+		changed = false
+		for _, r := range resets {
+			n := r(d)
+			if n != d && classOf[n] == cl {
+				d, changed = n, true
+			}
+		}
+	}
+	return d
+}
+
 // ---------------------------------------------------------------------------- actual shape of the converted text
 
 func actualShape(xsrc string, d gsDesc) (gsShape, string) {
@@ -540,12 +593,35 @@ func runGopStyle() {
 			runs[k] = runBin(b)
 		}
 	})
+	// failure class of every description of the batch: the neighbours a failing case is minimised over
+	classOf := map[gsDesc]string{}
+	for i := range cases {
+		if cases[i].Src != "" {
+			continue
+		}
+		gname, xname := fmt.Sprintf("g%d", i), fmt.Sprintf("x%d", i)
+		cv := convs[i]
+		cl := "ok"
+		switch {
+		case errs[gname] != "" || runs[2*i].TimedOut:
+			cl = "skip"
+		case cv.ConvPanic != "":
+			cl = "panic"
+		case cv.ConvErr != "":
+			cl = "error"
+		case cv.CompileErr != "" || errs[xname] != "":
+			cl = "breaks"
+		case runs[2*i].Stdout != runs[2*i+1].Stdout || runs[2*i].Exit != runs[2*i+1].Exit || runs[2*i].Stderr != runs[2*i+1].Stderr || runs[2*i+1].TimedOut:
+			cl = "diff"
+		}
+		classOf[cases[i].D] = cl
+	}
 	nprog, nskip, leadsOK, leadsBad := 0, 0, 0, 0
 	for i := range cases {
 		c := &cases[i]
 		res := hlib.Result{Idx: i, V: "ok", Input: map[string]any{"d": c.D, "go": srcs[i]}}
-		sigBase := gsSignature(c.D)
-		res.NT = sigBase
+		sigBase := gsSignature(minimise(c.D, classOf))
+		res.NT = gsSignature(c.D)
 		cv := convs[i]
 		gname, xname := fmt.Sprintf("g%d", i), fmt.Sprintf("x%d", i)
 		detail := func(extra string) string {
